@@ -349,8 +349,9 @@ class FilesystemLayout(_BaseLayout[_MaildirT]):
     def _split(cls, name: str, delimiter: str) -> _Parts:
         parts = super()._split(name, delimiter)
         for part in parts:
-            if part in ('new', 'cur', 'tmp'):
-                # would be a sub-directory of the parent maildir itself
+            if part in ('new', 'cur', 'tmp', 'maildirfolder'):
+                # would be a sub-directory or the marker file of the parent
+                # maildir itself
                 raise FileNotFoundError(name)
         return parts
 
